@@ -28,10 +28,12 @@ N_tw == <<126,119>>                    \* ~w
 N_semi == <<97,59,98>>                 \* a;b
 N_bang == <<33>>                       \* !
 N_dash == <<45,110>>                   \* -n
-C_EXIT == <<69,88,73,84>>
 C_INT == <<73,78,84>>
 C_TERM == <<84,69,82,77>>
 C_USR1 == <<85,83,82,49>>
+C_RTMIN1 == <<82,84,77,73,78,43,49>>       \* RTMIN+1
+C_RTMAX == <<82,84,77,65,88>>                \* RTMAX
+N_pf == <<121,118,95,112,102>>        \* yv_pf, the function whose body issues the printers
 \* { probe 'a b' "c\"d\$e" f\ g; }
 B_1 == <<123,32,112,114,111,98,101,32,39,97,32,98,39,32,34,99,92,34,100,92,36,101,34,32,102,92,32,103,59,32,125>>
 \* (probe "$@" '' ~/x)
@@ -52,7 +54,7 @@ DeclNames == IF Rich THEN {N_x, N_weird, N_tw, N_semi, N_dash} ELSE {N_x, N_weir
 AliasNames == IF Rich THEN {N_x, N_weird, N_if, N_bang, N_tw, N_dash, <<>>} ELSE {N_x, N_weird, N_if, N_tw}
 FuncNames == IF Rich THEN {N_f, N_if, N_gh, N_bang, N_dash} ELSE {N_f, N_if, N_gh}
 Bodies == IF Rich THEN {B_1, B_2, B_3, B_4, B_5} ELSE {B_1, B_2, B_4}
-Conds == IF Rich THEN {C_EXIT, C_INT, C_TERM, C_USR1} ELSE {C_EXIT, C_INT, C_USR1}
+Conds == IF Rich THEN {C_EXIT, C_INT, C_TERM, C_USR1, C_RTMIN1, C_RTMAX} ELSE {C_EXIT, C_INT, C_RTMIN1}
 Masks == {0, 18, 23, 63, 127, 420, 511}
 
 OpsVars ==
@@ -65,6 +67,22 @@ OpsFunc == {Op("func", n, TRUE, <<b>>, 0) : n \in FuncNames, b \in Bodies}
 OpsOpt == {Op("opt", o, b, <<>>, 0) : o \in Modifiable, b \in BOOLEAN}
 OpsTrap == {Op("trap", c, TRUE, <<v>>, 0) : c \in Conds, v \in Values}
         \cup {Op("trap", c, FALSE, <<>>, 0) : c \in Conds}
+(* every condition the system offers, under every name *)
+OpsTrapAll == {Op("trap", c, TRUE, <<V_sp>>, 0) : c \in ConditionNames}
+(* the printers issued from inside a function body: global definitions,    *)
+(* then the call, then local variables (new names, and names that hide a   *)
+(* global variable, also a read-only one)                                  *)
+OpsFn ==
+     {Op("readonly", N_x, TRUE, <<V_a>>, 0), Op("export", N_x, TRUE, <<V_all>>, 0),
+      Op("readonly", N_y, FALSE, <<>>, 0),
+      Op("enter", N_pf, TRUE, <<<<>>>>, 0)}
+  \cup (IF Rich THEN {Op("assign", N_x, TRUE, <<V_sp>>, 0), Op("export", N_weird, TRUE, <<V_sp>>, 0),
+                      Op("alias", N_weird, TRUE, <<V_all>>, 0), Op("trap", C_RTMIN1, TRUE, <<V_sp>>, 0),
+                      Op("opt", O_glob, FALSE, <<>>, 0), Op("umask", <<>>, TRUE, <<>>, 63)}
+         ELSE {Op("alias", N_weird, TRUE, <<V_all>>, 0), Op("trap", C_RTMIN1, TRUE, <<V_sp>>, 0)})
+  \cup {Op("local", N_x, TRUE, <<V_all>>, m) : m \in 0..3}
+  \cup {Op("local", N_x, FALSE, <<>>, 0), Op("local", N_y, TRUE, <<V_sp>>, 2),
+        Op("local", N_weird, TRUE, <<V_sp>>, 0), Op("local", N_weird, TRUE, <<V_all>>, 3)}
 OpsUmask == {Op("umask", <<>>, TRUE, <<>>, m) : m \in Masks}
 (* a little of everything, to see the kinds interfere (allexport!) *)
 OpsMixed ==
@@ -77,8 +95,8 @@ OpsMixed ==
 
 OpsOf(c) == CASE c = "vars" -> OpsVars [] c = "alias" -> OpsAlias [] c = "func" -> OpsFunc
               [] c = "opt" -> OpsOpt [] c = "trap" -> OpsTrap [] c = "umask" -> OpsUmask
-              [] c = "mixed" -> OpsMixed
-DepthOf(c) == CASE c = "umask" -> 1 [] c = "opt" -> IF Depth > 3 THEN 3 ELSE 2 [] OTHER -> Depth
+              [] c = "mixed" -> OpsMixed [] c = "trapall" -> OpsTrapAll [] c = "fn" -> OpsFn
+DepthOf(c) == CASE c \in {"umask", "trapall"} -> 1 [] c = "fn" -> IF Rich THEN 4 ELSE Depth + 1 [] c = "opt" -> IF Depth > 3 THEN 3 ELSE 2 [] OTHER -> Depth
 
 (* options.md: the options that are on when nothing is specified *)
 DefaultOn == {O_clobber, O_exec, O_glob, O_log, O_unset}
